@@ -1,1 +1,587 @@
 import Gene.Cond
+import Gene.Props.C02
+import Gene.Props.C18
+/-! C16 — accepted condition and match text is interpreted in full, nothing ignored.
+
+    `C16_cond_accounts`: if a condition string is accepted with CST `c`, the non-space characters of the
+    string are exactly the concatenation of the tokens of `c`, in order (`yieldE c`): nothing trailing,
+    nothing interleaved is dropped; the count of `N of …` is all the digits matched, the prefix exactly the
+    `var` token. `C16_match_accounts`: the same for the three forms of match strings. -/
+set_option linter.unusedSimpArgs false
+namespace Gene.Props.C16
+open Gene M
+
+def noSp (s : Str) : Str := s.filter (fun c => c != ' ')
+
+@[simp] theorem noSp_nil : noSp [] = [] := rfl
+theorem noSp_append (a b : Str) : noSp (a ++ b) = noSp a ++ noSp b := by simp [noSp]
+theorem noSp_cons_sp (s : Str) : noSp (' ' :: s) = noSp s := by simp [noSp]
+theorem noSp_cons_ne (c : Char) (s : Str) (h : c ≠ ' ') : noSp (c :: s) = c :: noSp s := by simp [noSp, h]
+
+theorem noSp_skipWs (s : Str) : noSp (skipWs s) = noSp s := by
+  induction s with
+  | nil => rfl
+  | cons c s ih =>
+    by_cases h : c = ' '
+    · subst h; simp only [skipWs, noSp_cons_sp, ih]
+    · have : skipWs (c :: s) = c :: s := by
+        unfold skipWs
+        split
+        · rename_i heq; simp at heq; exact absurd heq.1 h
+        · rfl
+      rw [this]
+
+theorem noSp_id (s : Str) (h : ∀ c ∈ s, c ≠ ' ') : noSp s = s := by
+  induction s with
+  | nil => rfl
+  | cons c s ih =>
+    rw [noSp_cons_ne c s (h c (by simp)), ih (fun d hd => h d (by simp [hd]))]
+
+theorem skipWs_nil_noSp (s : Str) (h : skipWs s = []) : noSp s = [] := by
+  rw [← noSp_skipWs, h]; rfl
+
+theorem stripPrefix_eq (s p r : Str) (h : stripPrefix s p = some r) : s = p ++ r := by
+  induction p generalizing s with
+  | nil => simp [stripPrefix] at h; subst h; rfl
+  | cons a p ih =>
+    cases s with
+    | nil => simp [stripPrefix] at h
+    | cons c s =>
+      simp only [stripPrefix] at h
+      split at h
+      · rename_i hc; have hc' := beq_iff_eq.mp hc; subst hc'; rw [ih s h]; rfl
+      · cases h
+
+/-! ### tokens -/
+theorem isVarChar_ne_sp (c : Char) (h : isVarChar c = true) : c ≠ ' ' := by
+  intro hc; subst hc; revert h; decide
+theorem isDigit_ne_sp (c : Char) (h : isAsciiDigit c = true) : c ≠ ' ' := by
+  intro hc; subst hc; revert h; decide
+
+theorem varTok_spec (s v r : Str) (h : varTok s = some (v, r)) : s = v ++ r ∧ noSp v = v := by
+  unfold varTok at h
+  split at h
+  · rename_i r0
+    have sp := spanP_append isVarChar r0
+    have sa := spanP_all isVarChar r0
+    split at h
+    · rename_i a n r' heq
+      simp only [Option.some.injEq, Prod.mk.injEq] at h
+      obtain ⟨rfl, rfl⟩ := h
+      rw [heq] at sp sa
+      refine ⟨by rw [← sp]; simp, ?_⟩
+      apply noSp_id
+      intro c hc
+      simp only [List.mem_cons] at hc
+      rcases hc with rfl | hc
+      · decide
+      · exact isVarChar_ne_sp c (sa c (by simpa using hc))
+    · cases h
+  · cases h
+
+theorem countTok_spec (s d r : Str) (h : countTok s = some (d, r)) : s = d ++ r ∧ noSp d = d := by
+  unfold countTok at h
+  have sp := spanP_append isAsciiDigit s
+  have sa := spanP_all isAsciiDigit s
+  split at h
+  · rename_i a n r' heq
+    simp only [Option.some.injEq, Prod.mk.injEq] at h
+    obtain ⟨rfl, rfl⟩ := h
+    rw [heq] at sp sa
+    exact ⟨sp.symm, noSp_id _ (fun c hc => isDigit_ne_sp c (sa c hc))⟩
+  · cases h
+
+theorem ofThem_spec (s r : Str) (h : ofThem s = some r) : noSp s = "ofthem".toList ++ noSp r := by
+  unfold ofThem at h
+  split at h
+  · cases h
+  · rename_i r1 h1
+    have e1 := stripPrefix_eq _ _ _ h1
+    have e2 := stripPrefix_eq _ _ _ h
+    rw [← noSp_skipWs s, e1, noSp_append, ← noSp_skipWs r1, e2, noSp_append]
+    rfl
+
+theorem ofVars_spec (s v r : Str) (h : ofVars s = some (v, r)) : noSp s = "of".toList ++ v ++ noSp r := by
+  unfold ofVars at h
+  split at h
+  · cases h
+  · rename_i r1 h1
+    have e1 := stripPrefix_eq _ _ _ h1
+    obtain ⟨e2, e3⟩ := varTok_spec _ _ _ h
+    rw [← noSp_skipWs s, e1, noSp_append, ← noSp_skipWs r1, e2, noSp_append, e3]
+    simp only [List.append_assoc]
+    rfl
+
+def leafYield : Leaf → Str
+  | .var v => v
+  | .allOfThem => "allofthem".toList
+  | .allOfVars p => "allof".toList ++ p
+  | .anyOfThem => "anyofthem".toList
+  | .anyOfVars p => "anyof".toList ++ p
+  | .noneOfThem => "noneofthem".toList
+  | .noneOfVars p => "noneof".toList ++ p
+  | .nOfThem d => d ++ "ofthem".toList
+  | .nOfVars d p => d ++ "of".toList ++ p
+
+theorem kwGroup_spec (kw : Str) (them : Leaf) (vars : Str → Leaf) (s : Str) (l : Leaf) (r : Str)
+    (hkw : noSp kw = kw)
+    (ht : leafYield them = kw ++ "ofthem".toList) (hv : ∀ v, leafYield (vars v) = kw ++ "of".toList ++ v)
+    (h : kwGroup kw them vars s = some (l, r)) : noSp s = leafYield l ++ noSp r := by
+  unfold kwGroup at h
+  split at h
+  · cases h
+  · rename_i r1 h1
+    have e1 := stripPrefix_eq _ _ _ h1
+    split at h
+    · rename_i r' h2
+      simp only [Option.some.injEq, Prod.mk.injEq] at h
+      obtain ⟨rfl, rfl⟩ := h
+      rw [e1, noSp_append, hkw, ofThem_spec _ _ h2, ht]; simp only [List.append_assoc]
+    · split at h
+      · rename_i v r' h3
+        simp only [Option.some.injEq, Prod.mk.injEq] at h
+        obtain ⟨rfl, rfl⟩ := h
+        rw [e1, noSp_append, hkw, ofVars_spec _ _ _ h3, hv]; simp only [List.append_assoc]
+      · cases h
+
+theorem countGroup_spec (s : Str) (l : Leaf) (r : Str) (h : countGroup s = some (l, r)) :
+    noSp s = leafYield l ++ noSp r := by
+  unfold countGroup at h
+  split at h
+  · cases h
+  · rename_i d r1 hd
+    obtain ⟨e1, e2⟩ := countTok_spec _ _ _ hd
+    split at h
+    · rename_i r' h2
+      simp only [Option.some.injEq, Prod.mk.injEq] at h
+      obtain ⟨rfl, rfl⟩ := h
+      rw [e1, noSp_append, e2, ofThem_spec _ _ h2]
+      show d ++ ("ofthem".toList ++ noSp r') = (d ++ "ofthem".toList) ++ noSp r'
+      rw [List.append_assoc]
+    · split at h
+      · rename_i v r' h3
+        simp only [Option.some.injEq, Prod.mk.injEq] at h
+        obtain ⟨rfl, rfl⟩ := h
+        rw [e1, noSp_append, e2, ofVars_spec _ _ _ h3]
+        show d ++ ("of".toList ++ v ++ noSp r') = (d ++ "of".toList ++ v) ++ noSp r'
+        simp only [List.append_assoc]
+      · cases h
+
+theorem kw_all : noSp "all".toList = "all".toList := by decide
+theorem kw_any : noSp "any".toList = "any".toList := by decide
+theorem kw_none : noSp "none".toList = "none".toList := by decide
+
+theorem groupTok_spec (s : Str) (l : Leaf) (r : Str) (h : groupTok s = some (l, r)) :
+    noSp s = leafYield l ++ noSp r := by
+  unfold groupTok at h
+  split at h
+  · rename_i x hx
+    simp only [Option.some.injEq] at h; subst h
+    exact countGroup_spec _ _ _ hx
+  · split at h
+    · rename_i x hx
+      simp only [Option.some.injEq] at h; subst h
+      exact kwGroup_spec "all".toList .allOfThem .allOfVars s _ _ kw_all rfl (fun _ => rfl) hx
+    · split at h
+      · rename_i x hx
+        simp only [Option.some.injEq] at h; subst h
+        exact kwGroup_spec "any".toList .anyOfThem .anyOfVars s _ _ kw_any rfl (fun _ => rfl) hx
+      · exact kwGroup_spec "none".toList .noneOfThem .noneOfVars s _ _ kw_none rfl (fun _ => rfl) h
+
+theorem leafTok_spec (s : Str) (l : Leaf) (r : Str) (h : leafTok s = some (l, r)) :
+    noSp s = leafYield l ++ noSp r := by
+  unfold leafTok at h
+  split at h
+  · rename_i v r' hv
+    simp only [Option.some.injEq, Prod.mk.injEq] at h
+    obtain ⟨rfl, rfl⟩ := h
+    obtain ⟨e1, e2⟩ := varTok_spec _ _ _ hv
+    rw [e1, noSp_append, e2]; rfl
+  · exact groupTok_spec _ _ _ h
+
+theorem negTok_spec (s sp r : Str) (h : negTok s = some (sp, r)) : s = sp ++ r ∧ noSp sp = sp := by
+  unfold negTok at h
+  split at h
+  · simp only [Option.some.injEq, Prod.mk.injEq] at h
+    obtain ⟨rfl, rfl⟩ := h; exact ⟨rfl, by decide⟩
+  · simp only [Option.some.injEq, Prod.mk.injEq] at h
+    obtain ⟨rfl, rfl⟩ := h; exact ⟨rfl, by decide⟩
+  · cases h
+
+theorem bopTok_spec (s : Str) (o : BOp) (sp r : Str) (h : bopTok s = some (o, sp, r)) :
+    s = sp ++ r ∧ noSp sp = sp := by
+  unfold bopTok at h
+  split at h
+  all_goals first
+    | (simp only [Option.some.injEq, Prod.mk.injEq] at h
+       obtain ⟨_, rfl, rfl⟩ := h; exact ⟨rfl, by decide⟩)
+    | cases h
+
+/-! ### the token sequence of a CST -/
+mutual
+def yieldE : CExpr → Str
+  | .mk h t => yieldA h ++ yieldT t
+def yieldT : CTail → Str
+  | .nil => []
+  | .cons _ sp a t => sp ++ yieldA a ++ yieldT t
+def yieldA : CAtom → Str
+  | .mk n p => n.getD [] ++ yieldP p
+def yieldP : CPrim → Str
+  | .leaf l => leafYield l
+  | .paren e => '(' :: (yieldE e ++ [')'])
+end
+
+theorem parse_accounts : ∀ f : Nat,
+    (∀ s c r, parseExprC f s = some (c, r) → noSp s = yieldE c ++ noSp r) ∧
+    (∀ s t r, parseTail f s = (t, r) → noSp s = yieldT t ++ noSp r) ∧
+    (∀ s a r, parseAtom f s = some (a, r) → noSp s = yieldA a ++ noSp r) ∧
+    (∀ s p r, parsePrimary f s = some (p, r) → noSp s = yieldP p ++ noSp r) := by
+  intro f
+  induction f with
+  | zero =>
+    refine ⟨?_, ?_, ?_, ?_⟩
+    · intro s c r h; simp [parseExprC] at h
+    · intro s t r h; simp only [parseTail, Prod.mk.injEq] at h; obtain ⟨rfl, rfl⟩ := h; rfl
+    · intro s a r h; simp [parseAtom] at h
+    · intro s p r h; simp [parsePrimary] at h
+  | succ f ih =>
+    obtain ⟨ihE, ihT, ihA, ihP⟩ := ih
+    refine ⟨?_, ?_, ?_, ?_⟩
+    · intro s c r h
+      unfold parseExprC at h
+      split at h
+      · cases h
+      · rename_i a r1 ha
+        split at h
+        rename_i t r2 ht
+        simp only [Option.some.injEq, Prod.mk.injEq] at h
+        obtain ⟨rfl, rfl⟩ := h
+        rw [ihA _ _ _ ha, ihT _ _ _ ht]; simp [yieldE, List.append_assoc]
+    · intro s t r h
+      unfold parseTail at h
+      split at h
+      · simp only [Prod.mk.injEq] at h; obtain ⟨rfl, rfl⟩ := h; rfl
+      · rename_i o sp r1 hb
+        obtain ⟨e1, e2⟩ := bopTok_spec _ _ _ _ hb
+        split at h
+        · simp only [Prod.mk.injEq] at h; obtain ⟨rfl, rfl⟩ := h; rfl
+        · rename_i a r2 ha
+          split at h
+          rename_i t' r3 ht
+          simp only [Prod.mk.injEq] at h
+          obtain ⟨rfl, rfl⟩ := h
+          have := ihA _ _ _ ha
+          rw [noSp_skipWs] at this
+          rw [← noSp_skipWs s, e1, noSp_append, e2, this, ihT _ _ _ ht]
+          simp [yieldT, List.append_assoc]
+    · intro s a r h
+      unfold parseAtom at h
+      split at h
+      · rename_i sp r1 hn
+        obtain ⟨e1, e2⟩ := negTok_spec _ _ _ hn
+        split at h
+        · rename_i p r2 hp
+          simp only [Option.some.injEq, Prod.mk.injEq] at h
+          obtain ⟨rfl, rfl⟩ := h
+          have := ihP _ _ _ hp
+          rw [noSp_skipWs] at this
+          rw [e1, noSp_append, e2, this]; simp [yieldA, List.append_assoc]
+        · cases h
+      · split at h
+        · rename_i p r2 hp
+          simp only [Option.some.injEq, Prod.mk.injEq] at h
+          obtain ⟨rfl, rfl⟩ := h
+          rw [ihP _ _ _ hp]; simp [yieldA]
+        · cases h
+    · intro s p r h
+      unfold parsePrimary at h
+      split at h
+      · rename_i l r1 hl
+        simp only [Option.some.injEq, Prod.mk.injEq] at h
+        obtain ⟨rfl, rfl⟩ := h
+        rw [leafTok_spec _ _ _ hl]; rfl
+      · rename_i hl
+        cases s with
+        | nil => simp at h
+        | cons ch r0 =>
+          by_cases hch : ch = '('
+          · subst hch
+            simp only at h
+            split at h
+            · cases h
+            · rename_i e r2 he
+              split at h
+              · rename_i r3 hr
+                simp only [Option.some.injEq, Prod.mk.injEq] at h
+                obtain ⟨hp, hr3⟩ := h
+                subst hp
+                have h1 := ihE _ _ _ he
+                rw [noSp_skipWs] at h1
+                have h2 : noSp r2 = ')' :: noSp r := by
+                  rw [← noSp_skipWs r2, hr, hr3]; exact noSp_cons_ne ')' r (by decide)
+                rw [noSp_cons_ne '(' _ (by decide), h1, h2]
+                simp [yieldP, List.append_assoc]
+              · cases h
+          · split at h
+            · rename_i heq; simp only [List.cons.injEq] at heq; exact absurd heq.1 hch
+            · cases h
+
+/-- **C16 (conditions).** An accepted condition is accounted for token by token: its non-space
+    characters are exactly the tokens of the CST the meaning is computed from — nothing trailing or
+    interleaved is dropped. -/
+theorem C16_cond_accounts (s : Str) (c : CExpr) (h : parseCondCst s = some c) : noSp s = yieldE c := by
+  unfold parseCondCst at h
+  split at h
+  · rename_i e r he
+    split at h
+    · rename_i hr
+      simp only [Option.some.injEq] at h; subst h
+      have := (parse_accounts _).1 _ _ _ he
+      rw [noSp_skipWs] at this
+      have hr' : skipWs r = [] := by simpa using hr
+      rw [this, skipWs_nil_noSp r hr']; simp
+    · cases h
+  · cases h
+
+/-- the count of `N of …` is the value of *all* the digits matched and the prefix exactly the `var` token:
+    both are read from the CST leaf that `C16_cond_accounts` accounts for -/
+theorem C16_leaf_meaning (d p : Str) :
+    (leafExpr (.nOfVars d p) = .noneOfVars p ∨ leafExpr (.nOfVars d p) = .nOfVars (countVal d) p) ∧
+    leafExpr (.allOfVars p) = .allOfVars p ∧ leafExpr (.anyOfVars p) = .anyOfVars p ∧
+    leafExpr (.noneOfVars p) = .noneOfVars p := by
+  refine ⟨?_, rfl, rfl, rfl⟩
+  cases hcv : (countVal d == 0) with
+  | true => left; simp [leafExpr, hcv]
+  | false => right; simp [leafExpr, hcv]
+
+
+/-! ### match strings: every character is a token character or a separating space -/
+def Gap (g : Str) : Prop := ∀ c ∈ g, c = ' '
+
+theorem skipWs_gap (s : Str) : ∃ g, s = g ++ skipWs s ∧ Gap g := by
+  induction s with
+  | nil => exact ⟨[], rfl, by intro c hc; cases hc⟩
+  | cons c s ih =>
+    by_cases h : c = ' '
+    · subst h
+      obtain ⟨g, hg, hgap⟩ := ih
+      refine ⟨' ' :: g, ?_, ?_⟩
+      · simp only [skipWs, List.cons_append]; rw [← hg]
+      · intro d hd; rcases List.mem_cons.mp hd with rfl | hd
+        · rfl
+        · exact hgap d hd
+    · have : skipWs (c :: s) = c :: s := by
+        unfold skipWs
+        split
+        · rename_i heq; simp at heq; exact absurd heq.1 h
+        · rfl
+      exact ⟨[], by rw [this]; rfl, by intro d hd; cases hd⟩
+
+theorem optQuote_spec (s : Str) : ∃ q, s = q ++ optQuote s ∧ (q = [] ∨ q = ['"']) := by
+  unfold optQuote
+  split
+  · exact ⟨['"'], rfl, Or.inr rfl⟩
+  · exact ⟨[], rfl, Or.inl rfl⟩
+
+def opSpellings : MOp → List Str
+  | .eq => ["==".toList, "is".toList]
+  | .lt => ["<".toList]
+  | .lte => ["<=".toList]
+  | .gt => [">".toList]
+  | .gte => [">=".toList]
+  | .rex => ["~=".toList]
+  | .flag => ["&=".toList]
+
+theorem opTok_spec (s : Str) (op : MOp) (r : Str) (h : opTok s = some (op, r)) :
+    ∃ sp ∈ opSpellings op, s = sp ++ r := by
+  unfold opTok at h
+  split at h
+  all_goals first
+    | (simp only [Option.some.injEq, Prod.mk.injEq] at h
+       obtain ⟨rfl, rfl⟩ := h
+       first
+         | exact ⟨_, List.mem_cons_self, rfl⟩
+         | exact ⟨_, List.mem_cons_of_mem _ List.mem_cons_self, rfl⟩)
+    | cases h
+
+theorem eqTok_spec (s r : Str) (h : eqTok s = some r) : ∃ sp ∈ opSpellings .eq, s = sp ++ r := by
+  unfold eqTok at h
+  split at h
+  · simp only [Option.some.injEq] at h; subst h; exact ⟨_, List.mem_cons_self, rfl⟩
+  · simp only [Option.some.injEq] at h; subst h; exact ⟨_, List.mem_cons_of_mem _ List.mem_cons_self, rfl⟩
+  · cases h
+
+theorem valueTok_spec (s tok r : Str) (h : valueTok s = some (tok, r)) : s = tok ++ r := by
+  unfold valueTok at h
+  split at h
+  · rename_i r0
+    have sp := spanP_append (fun c => c != '"') r0
+    split at h
+    · rename_i body r' heq
+      simp only [Option.some.injEq, Prod.mk.injEq] at h
+      obtain ⟨rfl, rfl⟩ := h
+      rw [heq] at sp; simp only at sp
+      rw [← sp]; simp
+    · cases h
+  · rename_i r0
+    have sp := spanP_append (fun c => c != '\'') r0
+    split at h
+    · rename_i body r' heq
+      simp only [Option.some.injEq, Prod.mk.injEq] at h
+      obtain ⟨rfl, rfl⟩ := h
+      rw [heq] at sp; simp only at sp
+      rw [← sp]; simp
+    · cases h
+  · split at h
+    · rename_i r' hp
+      simp only [Option.some.injEq, Prod.mk.injEq] at h
+      obtain ⟨rfl, rfl⟩ := h; exact stripPrefix_eq _ _ _ hp
+    · split at h
+      · rename_i r' hp
+        simp only [Option.some.injEq, Prod.mk.injEq] at h
+        obtain ⟨rfl, rfl⟩ := h; exact stripPrefix_eq _ _ _ hp
+      · split at h
+        · rename_i r' hp
+          simp only [Option.some.injEq, Prod.mk.injEq] at h
+          obtain ⟨rfl, rfl⟩ := h; exact stripPrefix_eq _ _ _ hp
+        · split at h
+          · rename_i r' hp
+            simp only [Option.some.injEq, Prod.mk.injEq] at h
+            obtain ⟨rfl, rfl⟩ := h; exact stripPrefix_eq _ _ _ hp
+          · cases h
+
+def render (gs : List Seg) : Str := gs.flatMap Seg.render
+
+/-- **C16 (direct matches).** An accepted `path op value` string is, from its first to its last
+    character: spaces, an optional quote, spaces, the rendering of the parsed path, spaces, an optional
+    quote, spaces, a spelling of the parsed operator, spaces, the value token, spaces. Nothing else. -/
+theorem C16_direct_accounts (s : Str) (gs : List Seg) (op : MOp) (tok : Str)
+    (h : parseDirect s = some (gs, op, tok)) :
+    ∃ g0 q0 g1 g2 q1 g3 sp g4 g5,
+      s = g0 ++ q0 ++ g1 ++ render gs ++ g2 ++ q1 ++ g3 ++ sp ++ g4 ++ tok ++ g5 ∧
+      Gap g0 ∧ Gap g1 ∧ Gap g2 ∧ Gap g3 ∧ Gap g4 ∧ Gap g5 ∧
+      (q0 = [] ∨ q0 = ['"']) ∧ (q1 = [] ∨ q1 = ['"']) ∧ sp ∈ opSpellings op := by
+  unfold parseDirect at h
+  simp only at h
+  obtain ⟨g0, e0, hg0⟩ := skipWs_gap s
+  obtain ⟨q0, eq0, hq0⟩ := optQuote_spec (skipWs s)
+  obtain ⟨g1, e1, hg1⟩ := skipWs_gap (optQuote (skipWs s))
+  split at h
+  · cases h
+  · rename_i gs' r1 hfp
+    have efp := (C18.matched_span_reparses _ _ _ hfp).1
+    obtain ⟨g2, e2, hg2⟩ := skipWs_gap r1
+    obtain ⟨q1, eq1, hq1⟩ := optQuote_spec (skipWs r1)
+    obtain ⟨g3, e3, hg3⟩ := skipWs_gap (optQuote (skipWs r1))
+    split at h
+    · cases h
+    · rename_i op' r2 hop
+      obtain ⟨sp, hsp, eop⟩ := opTok_spec _ _ _ hop
+      obtain ⟨g4, e4, hg4⟩ := skipWs_gap r2
+      split at h
+      · cases h
+      · rename_i tok' r3 hv
+        have ev := valueTok_spec _ _ _ hv
+        obtain ⟨g5, e5, hg5⟩ := skipWs_gap r3
+        split at h
+        · rename_i hend
+          simp only [Option.some.injEq, Prod.mk.injEq] at h
+          obtain ⟨rfl, rfl, rfl⟩ := h
+          have hend' : skipWs r3 = [] := by simpa using hend
+          refine ⟨g0, q0, g1, g2, q1, g3, sp, g4, g5, ?_, hg0, hg1, hg2, hg3, hg4, hg5, hq0, hq1, hsp⟩
+          rw [hend', List.append_nil] at e5
+          calc s = g0 ++ skipWs s := e0
+            _ = g0 ++ (q0 ++ optQuote (skipWs s)) := by rw [← eq0]
+            _ = g0 ++ (q0 ++ (g1 ++ skipWs (optQuote (skipWs s)))) := by rw [← e1]
+            _ = g0 ++ (q0 ++ (g1 ++ (render gs' ++ r1))) := by rw [efp]; rfl
+            _ = g0 ++ (q0 ++ (g1 ++ (render gs' ++ (g2 ++ skipWs r1)))) := by rw [← e2]
+            _ = g0 ++ (q0 ++ (g1 ++ (render gs' ++ (g2 ++ (q1 ++ optQuote (skipWs r1)))))) := by rw [← eq1]
+            _ = g0 ++ (q0 ++ (g1 ++ (render gs' ++ (g2 ++ (q1 ++ (g3 ++ skipWs (optQuote (skipWs r1)))))))) := by rw [← e3]
+            _ = g0 ++ (q0 ++ (g1 ++ (render gs' ++ (g2 ++ (q1 ++ (g3 ++ (sp ++ r2))))))) := by rw [eop]
+            _ = g0 ++ (q0 ++ (g1 ++ (render gs' ++ (g2 ++ (q1 ++ (g3 ++ (sp ++ (g4 ++ skipWs r2)))))))) := by rw [← e4]
+            _ = g0 ++ (q0 ++ (g1 ++ (render gs' ++ (g2 ++ (q1 ++ (g3 ++ (sp ++ (g4 ++ (tok' ++ r3))))))))) := by rw [ev]
+            _ = g0 ++ (q0 ++ (g1 ++ (render gs' ++ (g2 ++ (q1 ++ (g3 ++ (sp ++ (g4 ++ (tok' ++ g5))))))))) := by rw [← e5]
+            _ = _ := by simp only [List.append_assoc]
+        · cases h
+
+/-- **C16 (rule matches).** `rule(name)`: spaces, `rule(`, spaces, the name, spaces, `)`, spaces -/
+theorem C16_rule_accounts (s n : Str) (h : parseRuleMatch s = some n) :
+    ∃ g0 g1 g2 g3, s = g0 ++ "rule(".toList ++ g1 ++ n ++ g2 ++ [')'] ++ g3 ∧ Gap g0 ∧ Gap g1 ∧ Gap g2 ∧ Gap g3 ∧
+      n ≠ [] ∧ ∀ c ∈ n, isRuleNameChar c = true := by
+  unfold parseRuleMatch at h
+  obtain ⟨g0, e0, hg0⟩ := skipWs_gap s
+  split at h
+  · cases h
+  · rename_i r1 hp
+    have ep := stripPrefix_eq _ _ _ hp
+    obtain ⟨g1, e1, hg1⟩ := skipWs_gap r1
+    have sp := spanP_append isRuleNameChar (skipWs r1)
+    have sa := spanP_all isRuleNameChar (skipWs r1)
+    split at h
+    · rename_i a n' r2 heq
+      rw [heq] at sp sa; simp only at sp sa
+      obtain ⟨g2, e2, hg2⟩ := skipWs_gap r2
+      split at h
+      · rename_i r3 hr
+        obtain ⟨g3, e3, hg3⟩ := skipWs_gap r3
+        split at h
+        · rename_i hend
+          simp only [Option.some.injEq] at h; subst h
+          have hend' : skipWs r3 = [] := by simpa using hend
+          rw [hend', List.append_nil] at e3
+          refine ⟨g0, g1, g2, g3, ?_, hg0, hg1, hg2, hg3, by simp, sa⟩
+          calc s = g0 ++ skipWs s := e0
+            _ = g0 ++ ("rule(".toList ++ r1) := by rw [ep]
+            _ = g0 ++ ("rule(".toList ++ (g1 ++ skipWs r1)) := by rw [← e1]
+            _ = g0 ++ ("rule(".toList ++ (g1 ++ ((a :: n') ++ r2))) := by rw [sp]
+            _ = g0 ++ ("rule(".toList ++ (g1 ++ ((a :: n') ++ (g2 ++ skipWs r2)))) := by rw [← e2]
+            _ = g0 ++ ("rule(".toList ++ (g1 ++ ((a :: n') ++ (g2 ++ (')' :: r3))))) := by rw [hr]
+            _ = g0 ++ ("rule(".toList ++ (g1 ++ ((a :: n') ++ (g2 ++ (')' :: g3))))) := by rw [← e3]
+            _ = _ := by simp only [List.append_assoc, List.cons_append, List.nil_append]
+        · cases h
+      · cases h
+    · cases h
+
+/-- **C16 (indirect matches).** `path == @path`, with optional spaces between the four tokens only -/
+theorem C16_indirect_accounts (s : Str) (gs hs : List Seg) (h : parseIndirect s = some (gs, hs)) :
+    ∃ g0 g1 sp g2 g3, s = g0 ++ render gs ++ g1 ++ sp ++ g2 ++ ['@'] ++ render hs ++ g3 ∧
+      Gap g0 ∧ Gap g1 ∧ Gap g2 ∧ Gap g3 ∧ sp ∈ opSpellings .eq := by
+  unfold parseIndirect at h
+  obtain ⟨g0, e0, hg0⟩ := skipWs_gap s
+  split at h
+  · cases h
+  · rename_i gs' r1 hfp
+    have efp := (C18.matched_span_reparses _ _ _ hfp).1
+    obtain ⟨g1, e1, hg1⟩ := skipWs_gap r1
+    split at h
+    · cases h
+    · rename_i r2 heq
+      obtain ⟨sp, hsp, eop⟩ := eqTok_spec _ _ heq
+      obtain ⟨g2, e2, hg2⟩ := skipWs_gap r2
+      split at h
+      · rename_i r3 hat
+        split at h
+        · cases h
+        · rename_i hs' r4 hfp2
+          have efp2 := (C18.matched_span_reparses _ _ _ hfp2).1
+          obtain ⟨g3, e3, hg3⟩ := skipWs_gap r4
+          split at h
+          · rename_i hend
+            simp only [Option.some.injEq, Prod.mk.injEq] at h
+            obtain ⟨rfl, rfl⟩ := h
+            have hend' : skipWs r4 = [] := by simpa using hend
+            rw [hend', List.append_nil] at e3
+            refine ⟨g0, g1, sp, g2, g3, ?_, hg0, hg1, hg2, hg3, hsp⟩
+            calc s = g0 ++ skipWs s := e0
+              _ = g0 ++ (render gs' ++ r1) := by rw [efp]; rfl
+              _ = g0 ++ (render gs' ++ (g1 ++ skipWs r1)) := by rw [← e1]
+              _ = g0 ++ (render gs' ++ (g1 ++ (sp ++ r2))) := by rw [eop]
+              _ = g0 ++ (render gs' ++ (g1 ++ (sp ++ (g2 ++ skipWs r2)))) := by rw [← e2]
+              _ = g0 ++ (render gs' ++ (g1 ++ (sp ++ (g2 ++ ('@' :: r3))))) := by rw [hat]
+              _ = g0 ++ (render gs' ++ (g1 ++ (sp ++ (g2 ++ ('@' :: (render hs' ++ r4)))))) := by rw [efp2]; rfl
+              _ = g0 ++ (render gs' ++ (g1 ++ (sp ++ (g2 ++ ('@' :: (render hs' ++ g3)))))) := by rw [← e3]
+              _ = _ := by simp only [List.append_assoc, List.cons_append, List.nil_append]
+          · cases h
+      · cases h
+
+end Gene.Props.C16
